@@ -113,8 +113,8 @@ CLAIMED = {
     ),
     "C16": dict(
         category="other",
-        text="BOUNDED in the number of instances / matched pairs (values symbolic), executed on the real source: Evaluator.voc_metrics (0..3 matched pairs, 0..1 missed instances, two ordered symbolic match thresholds): AP, AR, mAP, mAR in [0,1], AP and AR non-increasing in the match threshold, all-perfect matches with nothing missed give AR = 1 and AP >= 1 - 1e-9, no matched pairs give zeros; Evaluator.pck_metrics (up to 3x2 pair x node distances incl. NaN, two ordered pixel thresholds): PCK in [0,1], non-decreasing in the pixel threshold, a keypoint counts iff present and closer than the threshold, perfect predictions give PCK = fraction of visible keypoints; Evaluator.mOKS = mean of the pair scores, in [0,1], 1 for perfect pairs; match_instances (1..2 ground-truth x 0..2 predicted instances, 1..2 nodes): pairs/false negatives are instances of the two frames, nothing matched twice, false negatives are exactly the unmatched ground truth, match scores in (0,1], identical predictions are all matched with OKS 1 (label sets without coinciding instances); relational: deleting the lowest-scoring prediction never increases the number of matches reaching a threshold. compute_oks enters through its closed-form contract (C15).",
-        note="Two genuine violations of the property as stated were found, replayed on the real code and recorded as known findings with committed witnesses (design of the greedy VOC-style matching; not repairable by a small patch): C16/greedy-deletion (deleting a confident poor prediction can increase recall) and C16/coinciding-instances (perfect predictions of animals that coincide on the visible nodes of one of them are cross-matched: mean OKS 0.75). Not decided: find_frame_pairs / Evaluator.__init__ over sleap_io Labels, compute_dists and distance_metrics (np.percentile, np.nanmean), visibility_metrics, voc_metrics with match_score_by='pck', the bounding-box-area normalisation inside match_instances, larger frames.",
+        text="BOUNDED in the number of instances / matched pairs (values symbolic), executed on the real source: Evaluator.voc_metrics (0..3 matched pairs, 0..1 missed instances, two ordered symbolic match thresholds): AP, AR, mAP, mAR in [0,1], AP and AR non-increasing in the match threshold, all-perfect matches with nothing missed give AR = 1 and AP >= 1 - 1e-9, no matched pairs give zeros; Evaluator.pck_metrics (up to 3x2 pair x node distances incl. NaN, two ordered pixel thresholds): PCK in [0,1], non-decreasing in the pixel threshold, a keypoint counts iff present and closer than the threshold, perfect predictions give PCK = fraction of visible keypoints; Evaluator.mOKS = mean of the pair scores, in [0,1], 1 for perfect pairs; match_instances (1..2 ground-truth x 0..2 predicted instances, 1..2 nodes): pairs/false negatives are instances of the two frames, nothing matched twice, false negatives are exactly the unmatched ground truth, match scores in (0,1], identical predictions are all matched with OKS 1 (label sets without coinciding instances); relational: deleting the lowest-scoring prediction never increases the number of matches reaching a threshold; compute_dists (<= 2x2): Euclidean distance per node, NaN iff a keypoint is missing, 0 for identical predictions, frame indices / video paths of the ground truth in order; Evaluator.distance_metrics (<= 2x2 distances): mean and the five percentiles lie between 0 and the largest distance, are NaN when nothing is visible and 0 for perfect predictions; Evaluator.visibility_metrics (<= 2x2): the confusion counts are the node-visibility counts, precision/recall in [0,1] or NaN exactly when undefined, 1 for identical predictions. compute_oks enters through its closed-form contract (C15).",
+        note="Two genuine violations of the property as stated were found, replayed on the real code and recorded as known findings with committed witnesses (design of the greedy VOC-style matching; not repairable by a small patch): C16/greedy-deletion (deleting a confident poor prediction can increase recall) and C16/coinciding-instances (perfect predictions of animals that coincide on the visible nodes of one of them are cross-matched: mean OKS 0.75). Not decided: find_frame_pairs / Evaluator.__init__ over sleap_io Labels, voc_metrics with match_score_by='pck', the bounding-box-area normalisation inside match_instances, larger frames.",
         technique="contract-based symbolic execution of the real code over bounded structures (bounded stand-in) incl. a relational two-run contract, obligations discharged by z3 (cvc5 for unknowns)",
         design="3/C16",
     ),
